@@ -400,6 +400,7 @@ func (ld *Layerdefs) RebaseLayer(name, newbase string) error {
 		return err
 	}
 	oldbase := layer.Base
+	layer.Base = newbase
 	err = ld.checkInheritance()
 	if err != nil {
 		layer.Base = oldbase
